@@ -219,6 +219,7 @@ func c08(c *core.Ctx) {
 				return ok && ssax.AnyIn(ssax.Backward(l.X), ssax.LoadOfField("server.server.willMessage"))
 			})
 			c.Check(okKey, "C08.R3", key+"|from-table", ipos(c, s.Instr), "pending will looked up in srv.willMessage", "signal is applied to a will that does not come from srv.willMessage")
+			noHookGuard(c, "C08.R3", key, s.Instr, "cancelling / firing the pending will at re-connect")
 		}
 		c.Check(nF >= 1, "C08.R3", "registerClient|cancel-on-resume", fpos(c, rc), "resume cancels the pending will", "registerClient never cancels a pending delayed will on session resume (signal(false) missing)")
 		c.Check(nT >= 1, "C08.R3", "registerClient|fire-on-discard", fpos(c, rc), "discard fires the pending will", "registerClient never fires a pending delayed will when the old session is discarded (signal(true) missing)")
